@@ -21,8 +21,10 @@ MANIFEST = {
              "(Except over a catalogue of 12 exception kinds; each repair is a switch of the model): recv_total (for every "
              "endpoint, tracker state, byte string, local/source address and clock value the repaired receive path returns "
              "normally), dropped_inert (a datagram that is not a well-formed message for the endpoint fires no callback, "
-             "sends nothing, schedules nothing and leaves the tracker state unchanged), recv_sequence_total (any sequence "
-             "of datagrams to any endpoints), parser totality lemmas (IndexError and KeyError unreachable), and one decided "
+             "sends nothing, schedules nothing and leaves the tracker state unchanged), dispatched_effect (a well-formed "
+             "message has its effect; device keys stay unique), recv_sequence_total / recv_sequence_nodup (any sequence "
+             "of datagrams to any endpoints), model_judged_ok (the run-time judge holds of the model's own outcome), "
+             "classify_clock_irrelevant, parser totality lemmas (IndexError and KeyError unreachable), and one decided "
              "witness datagram per repair showing that the unrepaired variant raises.  Tables (gate prefixes, default "
              "max-age, cache-control regex, bad-location needles, MX cap, jitter bounds, caught exception classes) are "
              "regenerated from the source on every run.  The model is tied to the code by differential runs through the real "
@@ -37,7 +39,7 @@ MANIFEST = {
 RULE = ("sequences of 1..20 datagrams to one of five entry points (advertisement listener, search listener, SsdpListener via its "
         "advertisement socket / its search socket, search responder); datagrams: valid NOTIFY alive/update/byebye, M-SEARCH and 200 OK "
         "over 3 UDNs x types x IPv4/IPv6 locations x max-age values; byte-, token- and header-level mutations of them; a targeted family "
-        "per raising primitive and call site (non-UTF-8 request line, 8190/8191-byte fields, malformed header lines, LOCATION shapes "
+        "per raising primitive and call site (non-UTF-8 request line, 8190/8191-byte fields, datagrams at the UDP maximum, malformed header lines, LOCATION shapes "
         "that made urlsplit / hostname / port raise, max-age with 10..4301 digits and at the datetime boundary, MX shapes, spoofed "
         "metadata headers); senders IPv4 / IPv6 / scoped IPv6; clock gaps from 0 to hours so that devices expire. "
         "non-trivial = at least one datagram was dispatched (callback, send, timer or device change); distinct = distinct driver text")
@@ -432,6 +434,12 @@ def targeted(rng) -> List[tuple]:
     for mx in MXS:
         for st in ("ssdp:all", "upnp:rootdevice", "uuid:unknown"):
             out.append(("mx", msearch(st, mx), None))
+    # datagrams at the UDP maximum: one giant field, thousands of header lines, a valid prefix followed by noise
+    out.append(("udp-max", notify("ssdp:alive", udn, typ, loc, None, extra=[["X", "v" * 64000]]), None))
+    out.append(("udp-max", notify("ssdp:alive", udn, typ, loc, "max-age=5", extra=[[f"H{i}", "v" * 55] for i in range(1000)]), None))
+    out.append(("udp-max", response(udn, typ, loc, None, extra=[[f"H{i}", "w" * 100] for i in range(600)]), None))
+    out.append(("udp-max", msearch("ssdp:all", "1", extra=[["USER-AGENT", "a" * 8000], ["X", "b" * 8190]]), None))
+    out.append(("udp-max", b"NOTIFY * HTTP/1.1\r\n" + bytes((i * 37 + 11) % 256 for i in range(65400)), None))
     # metadata spoofing: `_udn` without a USN reaches `_see_device`
     for kind in ("alive", "search", "byebye"):
         hs = [["_udn", "uuid:spoof"], ["LOCATION", loc], ["NT", typ], ["ST", typ], ["NTS", "ssdp:" + ("byebye" if kind == "byebye" else "alive")]]
